@@ -599,6 +599,9 @@ def sign_finish(w, s):
     w.completed.append(s.held)
     w.sign_st = None
     op = 0x81 if w.sign_answer_op is None else w.sign_answer_op
+    if op in (0x02, 0x04, 0x08):
+        # an answer that asks for (more) data carries the number of bytes wanted
+        return bytes([0x80, 0x02, op, 0x10])
     sig = w.sig_der
     if callable(sig):
         sig = sig(s.held)
